@@ -249,13 +249,13 @@ inline void op_closest(const Args& a) {
   double m = w.margin(c ? 1.0 : k.sa, x, y);
   // against All with a radius that certainly contains the closest intersection (it is within ~ pi a of p0)
   std::vector<int> cA; std::vector<Pnt> A = w.in.All(lX, lY, 2.5 * Math::pi() * w.a, cA, p0);
-  if (A.empty()) bad("closest-vs-all", "All(2.5 pi a) returns nothing, Closest returns " + pt(x, y));
+  if (A.empty()) bad("closest-vs-all", "All(2.5 pi a) returns nothing, Closest returns " + pt(x, y) + " c=" + std::to_string(c));
   else {
     double dm = INFINITY; Pnt q; int cq = 0;
     for (size_t i = 0; i < A.size(); ++i) { double dt = l1(A[i].first, A[i].second, p0x, p0y); if (dt < dm) { dm = dt; q = A[i]; cq = i < cA.size() ? cA[i] : 0; } }
     double mA = m + w.margin(cq ? 1.0 : sinang(at(w, lX, q.first), at(w, lY, q.second)), q.first, q.second);   // q may be the ill-conditioned one
     if (!(d <= dm + mA)) bad("closest-not-minimal", "Closest " + pt(x, y) + " is at L1 distance " + num(d) + " from p0 but All lists " + pt(q.first, q.second) + " at " + num(dm));
-    else if (!(d >= dm - mA)) bad("closest-vs-all", "Closest " + pt(x, y) + " at L1 distance " + num(d) + " is not listed by All(2.5 pi a), whose nearest is " + pt(q.first, q.second) + " at " + num(dm));
+    else if (!(d >= dm - mA)) bad("closest-vs-all", "Closest " + pt(x, y) + " c=" + std::to_string(c) + " (nearest of All has c=" + std::to_string(cq) + ") at L1 distance " + num(d) + " is not listed by All(2.5 pi a), whose nearest is " + pt(q.first, q.second) + " at " + num(dm));
   }
   if (h > 0) {
     for (auto& s : scan(w, lX, lY, p0x, p0y, d, h)) {
@@ -637,7 +637,7 @@ inline void genAll(Rng& r, int hq) {
 // segment: generic, crossing, near-miss, touching, short-far, coincident-{equator,meridian,oblique}, nearpar, polar;
 // ellipsoids (ix:ell-*): WGS84, International, f = 1/150, 0 (two radii), +-0.015 (series), WGS84 / +-1/50 / +-1/10 exact.
 inline void generate(Rng& r, bool thorough) {
-  long n = thorough ? 60000 : 16000;
+  long n = thorough ? 40000 : 16000;
   int hgrid = thorough ? 250000 : 500000;
   for (long i = 0; i < n; ++i) {
     // the brute-force scan on every case of the thorough tier and on a fraction of the quick tier
